@@ -17,7 +17,7 @@ NEXT_RES = "<_ as core::iter::traits::iterator::Iterator>::next"
 BB = "cozy_chess_types::bitboard::BitBoard"
 SQ = "cozy_chess_types::square::Square"
 
-ITER_TERMINALS = ("fold", "any", "all", "for_each", "find", "collect", "count", "try_fold", "try_for_each")
+ITER_TERMINALS = ("fold", "any", "all", "for_each", "find", "collect", "count", "try_fold", "try_for_each", "position")
 ITER_ADAPTORS = ("map", "filter", "copied", "cloned", "flatten", "filter_map", "enumerate", "flat_map")
 OPT_COMBINATORS = ("map", "map_or", "and_then", "is_some_and", "unwrap_or", "filter", "map_or_else", "ok_or", "transpose")
 BOOL_COMBINATORS = ("then_some", "then")
@@ -663,6 +663,11 @@ class Rewriter:
             acc = self.new_local(BB, "collected")
             pre.append(self.assign(acc, self.use({"k": "const", "ty": BB, "v": 0}), sp))
             clos = None
+        elif m == "position":
+            # index of the first element the predicate accepts: a counter that starts at 0 and goes up by one per miss
+            acc = self.new_local("usize", "position")
+            pre.append(self.assign(acc, self.use({"k": "const", "ty": "usize", "v": 0}), sp))
+            clos = self.closure_local(t["args"][1], pre, sp)
         else:
             clos = self.closure_local(t["args"][1], pre, sp)
         stage_clos = []
@@ -706,6 +711,9 @@ class Rewriter:
             exit_stmts = [self.assign_pl(dest, self.use({"k": "const", "ty": "bool", "v": 1}), sp)]
         elif m == "for_each":
             exit_stmts = [self.assign_pl(dest, self.use({"k": "const", "ty": "()", "zst": True}), sp)]
+        elif m == "position":
+            exit_stmts = [self.assign_pl(dest, {"k": "agg", "ak": "adt", "adt": "core::option::Option", "variant": "None",
+                                                "vi": 0, "targs": [], "fields": [], "ops": []}, sp)]
         elif m == "find":
             oty = self.locals[dest["l"]]["ty"] if not dest["p"] else opt_of
             exit_stmts = [self.assign_pl(dest, {"k": "agg", "ak": "adt", "adt": "core::option::Option", "variant": "None",
@@ -778,6 +786,15 @@ class Rewriter:
                 self.blocks[chk]["term"] = {"k": "switch", "discr": self.mv(tb), "dty": "bool", "arms": [[0, C]], "otherwise": hit, "sp": sp}
             else:
                 self.blocks[chk]["term"] = {"k": "switch", "discr": self.mv(tb), "dty": "bool", "arms": [[0, hit]], "otherwise": C, "sp": sp}
+        elif m == "position":
+            tb = self.new_local("bool")
+            chk = self.new_block([], None)
+            self.blocks[cur]["term"] = self.closure_call(clos, [self.mv(x)], tb, chk, sp, self.blocks[cur]["stmts"])
+            hit = self.new_block([self.assign_pl(dest, {"k": "agg", "ak": "adt", "adt": "core::option::Option", "variant": "Some",
+                                                        "vi": 1, "targs": [], "fields": ["0"], "ops": [self.cp(acc)]}, sp)], self.goto(T, sp))
+            miss = self.new_block([self.assign(acc, {"k": "bin", "op": "Add", "a": self.cp(acc), "b": {"k": "const", "ty": "usize", "v": 1}, "aty": "usize"}, sp)],
+                                  self.goto(C, sp))
+            self.blocks[chk]["term"] = {"k": "switch", "discr": self.mv(tb), "dty": "bool", "arms": [[0, miss]], "otherwise": hit, "sp": sp}
         elif m == "for_each":
             u = self.new_local("()")
             self.blocks[cur]["term"] = self.closure_call(clos, [self.mv(x)], u, C, sp, self.blocks[cur]["stmts"])
